@@ -121,10 +121,17 @@ EVENT_HOOKS = ('on_start_trace', 'on_end_trace', 'on_start_prompt', 'on_end_prom
 
 def c12(scn, obs):
     bad = []
-    seq = [o for o in obs if o.get('k') == 'hook' and o['hook'] in ('on_initialize_run', 'on_start_run', 'on_end_run', 'on_finished') + EVENT_HOOKS]
+    seq = [o for o in obs if (o.get('k') == 'hook' and o['hook'] in ('on_initialize_run', 'on_start_run', 'on_end_run', 'on_finished') + EVENT_HOOKS)
+           or (o.get('k') == 'failing' and o.get('what') == 'run_ctx')]
     cur = None           # run number being initialised / run
     phase = 'none'       # none | init | started | ended | finished
     for o in seq:
+        if o.get('k') == 'failing':
+            # the run session failed to start (a plugin's session context raised before the child was spawned):
+            # no start-run / end-run for it; the machine still reaches 'finished' and on_finished is delivered
+            if phase == 'init':
+                phase = 'failed-to-start'
+            continue
         h = o['hook']
         if h in EVENT_HOOKS:
             # the run's in-process events come after start-run and before end-run
@@ -154,7 +161,7 @@ def c12(scn, obs):
                 bad.append(('end-without-run-arg', 'on_end_run without run arguments'))
             phase = 'ended'
         elif h == 'on_finished':
-            if phase != 'ended':
+            if phase not in ('ended', 'failed-to-start'):
                 bad.append((f'finished-without-end:{phase}', f'on_finished delivered in phase {phase} (no on_start_run/on_end_run for this run)'))
             if o['state'] != 'finished':
                 bad.append((f'finished-in-state:{o["state"]}', f'on_finished delivered while state is {o["state"]}'))
